@@ -10,13 +10,13 @@ theorem any_id_iff_find (l : List TxRec) (t : Nat) : l.any (·.id = t) = (l.find
     simp only [List.any_cons, List.find?_cons]
     by_cases h : a.id = t <;> simp [h, ih]
 
-theorem R.reg_isSome {c : Sys} {s : State} (h : R c s) (t : Nat) :
+theorem Rx.reg_isSome {c : Sys} {s : State} {cl : List Nat} (h : Rx cl c s) (t : Nat) :
     (find s t).isSome = (c.reg.find? (·.id = t)).isSome := by
   have := h.find_eq t
   cases h1 : find s t <;> cases h2 : c.reg.find? (·.id = t) <;> simp_all
 
-theorem step_begin {c : Sys} {s : State} (h : R c s) (t : Nat) (lvl : Level) :
-    (c.begin t lvl).2 = (Spec.begin s t lvl).2 ∧ R (c.begin t lvl).1 (Spec.begin s t lvl).1 := by
+theorem step_begin {c : Sys} {s : State} {cl : List Nat} (h : Rx cl c s) (t : Nat) (lvl : Level) :
+    (c.begin t lvl).2 = (Spec.begin s t lvl).2 ∧ Rx cl (c.begin t lvl).1 (Spec.begin s t lvl).1 := by
   unfold Sys.begin Spec.begin
   rw [any_id_iff_find, ← h.reg_isSome t]
   by_cases hc : t = mainTx ∨ (find s t).isSome = true
@@ -123,6 +123,7 @@ theorem step_begin {c : Sys} {s : State} (h : R c s) (t : Nat) (lvl : Level) :
           | nil => simp [hm] at hh
           | cons a t => simp [hm] at hh; subst hh; simp
         have := (i.bounds k hd (i.main_sub_all hmem)).2.1
+        intro _
         show hd.seq < c.counter + 1
         omega
 
